@@ -49,6 +49,12 @@ def sliceFrom {α : Type} (l : List α) (i : Int64) : M (List α) :=
   | some n => .ok (l.drop n)
   | none => .error .runtime
 
+/-- `x[i:j]` (bounded by the length here, as the other slice expressions) -/
+def slice {α : Type} (l : List α) (i j : Int64) : M (List α) :=
+  match pos? i (l.length + 1), pos? j (l.length + 1) with
+  | some a, some b => if a ≤ b then .ok ((l.take b).drop a) else .error .runtime
+  | _, _ => .error .runtime
+
 /-- `x[i] = f(x[i])` (assignment to an element or to a field of an element) -/
 def setIdx {α : Type} (l : List α) (i : Int64) (f : α → α) : M (List α) :=
   match pos? i l.length with
